@@ -11,6 +11,7 @@
       [unmarshal_json s dst] = [of_doc (read_doc s) dst]: outcome and destination afterwards.
     [bytes] turns a string literal into its byte list; [itoa] is decimal printing; [hex_encode]
     lower-case hex (Base/Dec.v, Base/Hex.v).  [frame_wf f] = the fields fit the Go struct. *)
+From Coq Require Import String.
 From Coq Require Import ZArith List Bool.
 From CanVerif Require Import Base.Dec Base.Hex Can.Data Can.Frame Can.FrameProofs
   Can.FrameString Can.FrameJSON Can.FrameJSONSpec Can.FrameJSONProofs.
